@@ -47,13 +47,20 @@ func (x *XML2sdcpbConfigAdapter) Transform(ctx context.Context, doc *etree.Docum
 		return nil, nil
 	}
 
+	// leaf-lists directly below the root are collected here, like those of a container
+	rtc := NewTransformationContext(nil)
+
 	for _, e := range doc.Root().ChildElements() {
 		r := &sdcpb.Notification{}
-		err := x.transformRecursive(ctx, e, []*sdcpb.PathElem{}, r, nil)
+		err := x.transformRecursive(ctx, e, []*sdcpb.PathElem{}, r, rtc)
 		if err != nil {
 			return nil, err
 		}
 		result = append(result, r)
+	}
+
+	if upds := rtc.Close(); len(upds) > 0 {
+		result = append(result, &sdcpb.Notification{Update: upds})
 	}
 
 	return result, nil
